@@ -631,8 +631,10 @@ class FuncRun:
         self.old_mem = dict(st.mem)
         self.entry_state = st.fork()
         ev = Evaluator(self, st, self.old_mem, self.contract_env(), phase="pre", assume=True)
-        for lab, ast, txt in self.V.globalinv_for(self):
+        for lab, ast, txt, gpkg in self.V.globalinv_for(self):
+            ev.pkg = gpkg
             st.assume(ev.bool(ast))
+        ev.pkg = self.f.get("pkg", "")
         for lab, ast, txt in self.c.requires:
             st.assume(ev.bool(ast))
         for kind, txt in self.c.other:
@@ -795,7 +797,7 @@ class FuncRun:
         for kind, txt in self.c.other:
             if kind == "use":
                 st.assume(self.lemma_instance(ev, txt))
-        for i, (lab, ast, txt) in enumerate(self.c.ensures):
+        for i, (lab, ast, txt) in enumerate(list(self.c.ensures) + list(self.c.ensures_body)):
             g = ev.bool(ast)
             self.add_named(st, "post", "post.%s" % (lab or str(i + 1)), ins.get("pos", ""), g, txt)
             if self.mode == "ring" and g is not True:
